@@ -424,7 +424,7 @@ pub fn sets(ctx: &Ctx) -> Vec<CaseSet> {
         ),
         CaseSet::new(
         "api-agreement-and-walk",
-        ctx.size(600_000, 6_000_000),
+        ctx.size(600_000, 18_000_000),
         Box::new(move |rep, rng, _| {
             let (input, q, tag) = crate::props::c06::gen_input(rng, &tb, &cfg, 600);
             let q = if rng.chance(1, 2) { Q::from_index(rng.below(N_Q)) } else { q };
